@@ -492,6 +492,7 @@ func (rt *runtime) cmplEvaluateNodeWithStatement(node *nodeWithStatement) Value 
 	obj := rt.cmplEvaluateNodeExpression(node.object)
 	outer := rt.scope.lexical
 	lexical := rt.newObjectStash(rt.toObject(obj.resolve()), outer)
+	lexical.provideThis = true
 	rt.scope.lexical = lexical
 	defer func() {
 		rt.scope.lexical = outer
